@@ -48,6 +48,7 @@ Definition expected_sites : list (string * nat * string) := [
   ("parsePath", 6, "Model/KeyValues.v parse_path / parse_seg; Proofs/C07P.v parse_path_no_panic");
   ("pretty.Outdent", 1, "indentation bookkeeping of the indented encoders: NOT MODELLED (whitespace only), dynamic checks (C02/C03/C16)");
   ("prevValueByPath", 2, "Model/TreeOps.v with_parent; Props C11_remove_no_panic / C11_rename_no_panic");
+  ("teeReader.Read", 1, "io.TeeReader's Read (fix of the raw-reader charset defect): p[:n] with n <= len(p) by the io.Reader contract of the wrapped reader (environment); exercised by the C01 entry-point oracle");
   ("teeReader.ReadByte", 3, "Model/Reader.v tee_reader (one-byte buffer)");
   ("updateValuesForKeyPath", 8, "Model/TreeOps.v update_kp; Props C10_update_no_panic");
   ("valuesForArray", 15, "Model/KeyValues.v vfa (explicit Panic branches); Props C07_no_panic");
